@@ -35,6 +35,26 @@ PROPS = {
         profiles=dict(quick=[('sched', 12, 1)], thorough=[('sched', 80, 8), ('life', 150, 4)]),
         explanation='theorems over all histories (Props.C19: at most 4 counters and 4 MAC-history entries, reveal queue at most 3 keys per message accepted since the last send and emptied by each send); Go oracle measures counters, MAC history, reveal queue, resend queue, injections and the reveal field of every emitted message along long runs',
         assumptions=['session-wide constant for the reveal queue is a two-party fact, measured not proved', 'heap size beyond the modelled lists is not measured here (see C08)']),
+    'C15': dict(
+        module='Props.C15', level='proof',
+        profiles=dict(quick=[('tags', 40, 1), ('reject', 60, 1)], thorough=[('tags', 200, 6), ('reject', 400, 6)]),
+        explanation='exact decision table of verifyInstanceTags and own-tag generation for all inputs and all randomness (Props.C15); tied to otrv3.go/instance_tags.go by differential runs over the 7x7 tag grid on several message kinds and fragments, before and after binding; Go oracle: foreign/malformed traffic changes nothing and the genuine peer still gets through; ExtractInstanceTags compared with what the sender wrote',
+        assumptions=['ExtractInstanceTags is modelled and compared differentially, its theorem is the header round trip only']),
+    'C16': dict(
+        module='Props.C16', level='proof',
+        profiles=dict(quick=[('policy', 500, 1)], thorough=[('policy', 4600, 2), ('life', 100, 2)]),
+        explanation='version choice, query/whitespace-tag version extraction for EVERY policy pair and friendly text, stickiness, disabled pass-through and exact plaintext recovery as theorems (Props.C16); tied to version.go/query.go/whitespace.go/send.go/receive.go by differential runs over policy pairs (full 64x64 product in the thorough tier) and offer forms',
+        assumptions=['plain-text exactness needs the first occurrence of the tag header in text++tag to be at |text| (the 16-byte header has period 15: inherent to the tag format)']),
+    'C18': dict(
+        module='Props.C18', level='proof',
+        profiles=dict(quick=[('lifecycle', 25, 1)], thorough=[('lifecycle', 120, 8), ('life', 150, 4)]),
+        explanation='exact effect of the three writers of the message state on state and security events, refusal in the finished state, queueing under required encryption (Props.C18); writers regenerated from /repo as facts; Go oracle over whole lifecycle histories: events exactly on IsEncrypted transitions, each text delivered at most once plus at most one marked resend, queued texts in order',
+        assumptions=['retransmission discipline over whole histories is decided by the oracle + correspondence of the resend bookkeeping, not by a theorem']),
+    'C03': dict(
+        module='Props.C03', level='proof',
+        profiles=dict(quick=[('lifecycle', 25, 1)], thorough=[('lifecycle', 120, 8), ('life', 150, 4), ('policy', 1000, 1)]),
+        explanation='silent states and wire armour as theorems (Props.C03); Go oracle searches every wire output (raw, base64-decoded, reassembled fragments) for every text sent while encrypted / finished / under required encryption over lifecycle histories under random policy sets',
+        assumptions=['secrecy of AES-CTR and of the DH-derived keys is assumed (ideal crypto)', 'noninterference of the other message fields is checked by the oracle, not proved']),
 }
 
 # properties not claimed yet (kept current; each is moved into PROPS when its check exists)
